@@ -11,7 +11,7 @@ KV_RE = re.compile(r'(\w+)=("([^"]*)"|\S+)')
 class Harness:
     def __init__(self, module, name, kv):
         self.module, self.name = module, name
-        self.full = f"{module}::{name}"
+        self.full = f"{module}::{kv['mod']}::{name}" if kv.get("mod") else f"{module}::{name}"
         self.prop = kv.get("id", "")
         self.tier = kv.get("tier", "quick")
         self.required = kv.get("req", "1") == "1"
